@@ -11,14 +11,19 @@ import json
 from .facts import Body
 
 
+def _map(l, off):
+    # `off` is an offset, or a function from callee locals to caller locals
+    return off(l) if callable(off) else l + off
+
+
 def _shift_place(pl, off):
     p = []
     for e in pl['p']:
         if isinstance(e, dict) and 'idx' in e:
             e = dict(e)
-            e['idx'] = e['idx'] + off
+            e['idx'] = _map(e['idx'], off)
         p.append(e)
-    return {'l': pl['l'] + off, 'p': p}
+    return {'l': _map(pl['l'], off), 'p': p}
 
 
 def _shift_op(o, off):
@@ -203,6 +208,16 @@ def inline_once(body, bi, callee, closure_local=None):
     target = t['target']
     dest = t['dest']
     j['blocks'][bi]['term'] = {'k': 'goto', 'target': boff}
+    # `helper(&mut *self, ..)`: the callee's parameter is the caller's own reference, reborrowed.  `(*param).f` and
+    # `(*self).f` are the same place, so the callee's copy names the caller's local directly: a field of the planner
+    # written in a `&mut self` helper is, after inlining, a write to `self.f` in the caller.
+    alias = _reborrow_aliases(body, j, t, callee)
+    off = loff
+    if alias:
+        lo = loff
+        off = (lambda l, a=alias, o=lo: a[l] if l in a else l + o)
+    loff_i = loff
+    loff = off
     for cb in cj['blocks']:
         nb = {'stmts': [], 'term': None, 'tspan': cb['tspan'], 'cleanup': cb['cleanup']}
         if cb['cleanup']:
@@ -217,9 +232,9 @@ def inline_once(body, bi, callee, closure_local=None):
             elif st['k'] == 'setdiscr':
                 st2['place'] = _shift_place(st['place'], loff)
             nb['stmts'].append(st2)
-        nt = _shift_term(cb['term'], loff, boff, loff, dest, target)
+        nt = _shift_term(cb['term'], loff, boff, loff_i, dest, target)
         if nt is None:   # return
-            nb['stmts'].append({'k': 'assign', 'place': dest, 'rv': {'k': 'use', 'op': {'move': {'l': loff, 'p': []}}},
+            nb['stmts'].append({'k': 'assign', 'place': dest, 'rv': {'k': 'use', 'op': {'move': {'l': loff_i, 'p': []}}},
                                 'span': cb['tspan']})
             nt = {'k': 'goto', 'target': target} if target is not None else {'k': 'unreachable'}
         nb['term'] = nt
@@ -227,9 +242,57 @@ def inline_once(body, bi, callee, closure_local=None):
     if closure_local is not None and callee.kind == 'Closure':
         caps = _captures(j, closure_local)
         if caps:
-            _promote_upvars(j, boff, loff + 1, caps)
+            _promote_upvars(j, boff, loff_i + 1, caps)
     nbdy = Body(j, body.crate)
     return nbdy
+
+
+def _whole_defs(j, local):
+    out = []
+    for blk in j['blocks']:
+        if blk['cleanup']:
+            continue
+        for st in blk['stmts']:
+            if st['k'] == 'assign' and st['place']['l'] == local and not st['place']['p']:
+                out.append(st)
+        tm = blk['term']
+        if tm['k'] == 'call' and tm['dest']['l'] == local and not tm['dest']['p']:
+            out.append(tm)
+    return out
+
+
+def _reborrow_aliases(body, j, t, callee):
+    """{callee parameter local: caller local} for the arguments that are `&mut *R` with R a `&mut` parameter of the caller
+    that is never reassigned, where the callee never reassigns (or takes the address of) its own parameter."""
+    out = {}
+    argc = body.j.get('arg_count') or 0
+    for i, a in enumerate(t['args']):
+        pl = a.get('move') or a.get('copy')
+        if pl is None or pl['p']:
+            continue
+        ds = _whole_defs(j, pl['l'])
+        # (the argument-passing statements appended above are assignments to callee locals, not to pl['l'])
+        if len(ds) != 1 or ds[0].get('k') != 'assign':
+            continue
+        rv = ds[0]['rv']
+        if not (rv['k'] == 'ref' and rv.get('mut') and rv['place']['p'] == ['deref']):
+            continue
+        R = rv['place']['l']
+        if not (1 <= R <= argc) or not str(j['locals'][R]['ty']).startswith('&mut ') or _whole_defs(j, R):
+            continue
+        cp = 1 + i
+        cj = callee.j
+        if cp > (cj.get('arg_count') or 0) or _whole_defs(cj, cp):
+            continue
+        addr = False
+        for blk in cj['blocks']:
+            for st in blk['stmts']:
+                if st['k'] == 'assign' and st['rv']['k'] in ('ref', 'rawptr') and st['rv']['place']['l'] == cp and not st['rv']['place']['p']:
+                    addr = True
+        if addr:
+            continue
+        out[cp] = R
+    return out
 
 
 def inline_calls(body, pick, crate, max_rounds=24, sub=None, max_blocks=3000):
